@@ -219,6 +219,27 @@ theorem ssrRandomize_strict (x u : List Rat) (thr : Rat) (hlen : x.length ≤ u.
     · rw [if_pos hj0]; rw [hj0] at hlt; linarith [huj.1]
     · rw [if_neg hj0]; exact hlt
 
+theorem mem_ssrRandomize {x u : List Rat} {v : Rat} (h : v ∈ ssrRandomize x u) : v ∈ x ∨ v ∈ u := by
+  unfold ssrRandomize at h
+  induction x generalizing u with
+  | nil => simp at h
+  | cons a t ih =>
+    cases u with
+    | nil => simp at h
+    | cons b w =>
+      simp only [List.zipWith_cons_cons, List.mem_cons] at h
+      rcases h with rfl | h
+      · by_cases h0 : a = 0
+        · rw [if_pos h0]; right; exact List.mem_cons_self
+        · rw [if_neg h0]; left; exact List.mem_cons_self
+      · rcases ih h with h1 | h1
+        · left; exact List.mem_cons_of_mem _ h1
+        · right; exact List.mem_cons_of_mem _ h1
+
+theorem mean_nonneg {l : List Rat} (h : ∀ v ∈ l, 0 ≤ v) : 0 ≤ mean l := by
+  unfold mean
+  exact div_nonneg (List.sum_nonneg h) (by exact_mod_cast Nat.zero_le _)
+
 theorem ssrAfter_eq_map (thr : Rat) (x : List Rat) : ssrAfter thr x = x.map (fun v => if v < thr then 0 else v) := rfl
 
 /-- sub-list of an admissible draw list is admissible -/
